@@ -103,18 +103,18 @@ PROPS = {
                      "several RI ids on one image: every id is released before GRend (GRend with ids outstanding is not exercised); GRsetcompress/GRsetchunk only before the first data"],
     ),
     "C07": dict(
-        lean_props=["H4.Props.C07", "H4.Props.C07Fn"],
+        lean_props=["H4.Props.C07", "H4.Props.C07Fn", "H4.Props.C07Fn3"],
         engines=[
             E("vs", "e_vs.c", model="vs", quick=dict(cases=400, chunk=25), thorough=dict(cases=4000, seeds=4, chunk=50, timeout=1800)),
         ],
         trusted_base=["DFKconvert kernels modelled as per-element copy / byte reversal (DFKnb*b, DFKsb*b); number conversion proper is outside C07",
                       "data element (DFTAG_VS, possibly linked-block) modelled as a growable byte array with a position: C01's business",
-                      "VH unpacking (vunpackvs) of the write list after Hclose/Hopen is exercised by the engine, not modelled here (the record codec is C02's); the packing side vpackvs is proved at function level (H4.Props.C07Fn) against H4.Format.vpackvs"],
+                      "VH unpacking (vunpackvs) of the write list after Hclose/Hopen is exercised by the engine, not modelled here (the record codec is C02's); the packing side vpackvs and the reading side vunpackvs are proved at function level (H4.Props.C07Fn, C07Fn3) against H4.Format.vpackvs / vunpackvs"],
         assumptions=["little-endian host; DFKNTsize(t) = DFKNTsize(t|DFNT_NATIVE) for all number types (generated tables NT_SIZES/NT_NSIZES, checked by lemma nt_tables)",
                      "field names are not the reserved symbols PX..NZ; seeks stay within the records written"],
     ),
     "C08": dict(
-        lean_props=["H4.Props.C08", "H4.Props.C08Fn", "H4.Props.C08Fn2"],
+        lean_props=["H4.Props.C08", "H4.Props.C08Fn", "H4.Props.C08Fn2", "H4.Props.C08Fn3"],
         engines=[
             E("vg", "e_vg.c", model="vg", cflags=["-DFIXED3"], quick=dict(cases=300, chunk=25), thorough=dict(cases=4000, seeds=4, chunk=50)),
         ],
@@ -210,7 +210,7 @@ PROPS = {
                      "SD presents labels, descriptions and data strings as C strings (strlen): texts with an embedded NUL are expected up to the NUL (generated texts have none; STAT ndg_text_nul counts legacy ones)"],
     ),
     "C02": dict(
-        lean_props=["H4.Props.C02"],
+        lean_props=["H4.Props.C02", "H4.Props.C08Fn3", "H4.Props.C07Fn3"],
         engines=[
             # cases 0..NWORKLOADS-1: the 32 workloads of workloads.h (prep file and file after the session); NWORKLOADS: odd-ndds Hnumber regression probe; above: random histories
             # (one in four SD-heavy: several unlimited data sets of different record counts that grow in different sessions).
